@@ -290,6 +290,7 @@ func (cr *clRun) run(dir string) {
 	w := simrt.NewWorld(s.Seed, synctest.Wait)
 	w.StrictLocks = os.Getenv("VERIF_LOOSE_LOCKS") == ""
 	w.LockJitter = time.Duration(s.Cfg["jitter"]) * time.Microsecond
+	w.SelectJitter = int(s.Cfg["seljit"])
 	defer w.Close()
 	cr.w = w
 	w.TraceOn = os.Getenv("VERIF_TRACE") != "" || s.Cfg["trace"] != 0
@@ -1906,6 +1907,9 @@ func (clustersim) Generate(rng *Rand, prop, tier string) *Script {
 	s.Cfg["perm"] = int64(rng.Intn(2))
 	if rng.Bool(25) {
 		s.Cfg["jitter"] = int64([]int{20, 100, 400}[rng.Intn(3)]) // microseconds of simulated time before lock requests
+	}
+	if rng.Bool(25) {
+		s.Cfg["seljit"] = int64(rng.Range(1, 5)) // nanoseconds a receiver may dawdle after a channel receive (simrt.SelectJitter)
 	}
 	if rng.Bool(30) {
 		s.Cfg["punchlag"] = int64([]int{50, 500, 5000, 70000}[rng.Intn(4)]) // lagging hole puncher (ms per hole, upper bound)
